@@ -45,6 +45,15 @@ func c20FileRead(bs uint32, nExt int) {
 	off := vp.I64("offset")
 	vp.Assume(off >= 0)
 	vp.Assume(off < 1<<44)
+	if nExt == 2 && !vp.Thorough() {
+		// quick tier: the two-extent walk (hole, extent, hole, extent within one Read) is decided on
+		// small magnitudes; the full-width arithmetic is covered by the one-extent variants
+		vp.Assume(fb1 < 1<<10)
+		vp.Assume(s0 < 1<<16)
+		vp.Assume(s1 < 1<<16)
+		vp.Assume(size < 1<<16)
+		vp.Assume(off < 1<<16)
+	}
 
 	fl := &File{inode: &inode{size: size}, offset: off, filesystem: fs, extents: exts, fileType: dirFileTypeRegular}
 	p := make([]byte, L)
@@ -58,23 +67,8 @@ func c20FileRead(bs uint32, nExt int) {
 	if want < 0 {
 		want = 0
 	}
-	// class of the recorded finding KF-C20-1: some requested position is not mapped by any extent.
-	// (branch-free: one unsigned comparison per range test, bits combined with & and |)
-	b2i := func(c bool) int { return vp.IteInt(c, 1, 0) }
-	hole := 0
-	for i := 0; i < L; i++ {
-		pos := off + int64(i)
-		in0 := b2i(uint64(pos-lo0) < uint64(hi0-lo0))
-		in1 := 0
-		if nExt == 2 {
-			in1 = b2i(uint64(pos-lo1) < uint64(hi1-lo1))
-		}
-		hole |= b2i(int64(i) < want) & (1 ^ in0) & (1 ^ in1)
-	}
-	holeInRange := hole != 0
 	vp.AllocCap(L + 2)
 	vp.Unwind(4)
-	vp.KnownPanic("KF-C20-2", "ext4.File).Read)") // make([]byte, toReadInOffset) with a negative length
 	vp.NoPanic()
 	n, err := fl.Read(p)
 	vp.AllowPanic()
@@ -82,16 +76,16 @@ func c20FileRead(bs uint32, nExt int) {
 	vp.Assert(n >= 0, "n >= 0")
 	vp.Assert(int64(n) <= want, "never more than asked for / than the file holds")
 	if err != nil {
-		vp.AssertUnless("KF-C20-1", holeInRange, err == io.EOF, "reading a well-formed file fails only with io.EOF")
+		vp.Assert(err == io.EOF, "reading a well-formed file fails only with io.EOF")
 	}
 	if err == io.EOF {
-		vp.AssertUnless("KF-C20-1", holeInRange, off+int64(n) >= int64(size), "io.EOF only at the end of the file")
+		vp.Assert(off+int64(n) >= int64(size), "io.EOF only at the end of the file")
 	}
-	vp.AssertUnless("KF-C20-1", holeInRange, fl.offset == off+int64(n), "the offset advances by the bytes returned")
+	vp.Assert(fl.offset == off+int64(n), "the offset advances by the bytes returned")
 	if want > 0 {
 		// weakest progress demand: something is delivered, or an error ends the stream
 		if err == nil {
-			vp.AssertUnless("KF-C20-1", holeInRange, n > 0, "Read makes progress (0, nil forever would hang io.ReadAll)")
+			vp.Assert(n > 0, "Read makes progress (0, nil forever would hang io.ReadAll)")
 		}
 	}
 	allEq := 1
@@ -105,7 +99,7 @@ func c20FileRead(bs uint32, nExt int) {
 		}
 		allEq &= c20b2i(i >= n) | c20b2i(p[i] == exp)
 	}
-	vp.AssertUnless("KF-C20-1", holeInRange, allEq == 1, "every returned byte = device byte of the mapping extent, 0 in a hole")
+	vp.Assert(allEq == 1, "every returned byte = device byte of the mapping extent, 0 in a hole")
 	if n > 0 {
 		vp.Cover("bytes returned")
 	}
@@ -160,7 +154,7 @@ func VP_C20_fileread_unwritten() {
 		for i := 0; i < L; i++ {
 			zero &= c20b2i(i >= n) | c20b2i(p[i] == 0)
 		}
-		vp.AssertUnless("KF-C20-7", true, zero == 1, "bytes of an unwritten extent read as zeros")
+		vp.Assert(zero == 1, "bytes of an unwritten extent read as zeros")
 		vp.Cover("read over an unwritten extent returned data")
 	} else {
 		vp.Cover("read over an unwritten extent refused")
